@@ -79,6 +79,7 @@ class ModelExpr:
         sq = f"(show_q sa {I})"
         rq = f"(show_res {sq})"
         if op == "units": return f"show_units {I}"
+        if op == "consts": return f"show_consts {T}"
         if op == "scales": return f"show_scales sa {I}"
         if op == "unit_iter": return f'show_sep show_nat " " (u_iter {I})'
         if op == "new": return f"{sq} (q_new {I} {A(a[0])} {int(a[1])}%nat)"
